@@ -140,6 +140,17 @@ Example containment_examples :
   contains_o Insertion (VMap [(VInt W_I64 1, VNone)]) (VBool true) = Ok true.
 Proof. vm_compute. repeat split. Qed.
 
+(* comparison chains (`a not in b != c`, `a < c in b`): `not in` is the negation of `in`, and a
+   chain holds exactly when each of its links holds.  The check requires these answers from
+   the engine both with the operands as variables and spelled as literals (constant folding). *)
+Theorem not_in_negates_in : forall o l r,
+  cmp_link o ONotIn l r = bind (cmp_link o OIn l r) (fun b => Ok (negb b)).
+Proof. exact not_in_negates_in_proof. Qed.
+
+Theorem chain_is_conjunction : forall o a op1 b op2 c,
+  chain o a [(op1, b); (op2, c)] = Ok true <-> cmp_link o op1 a b = Ok true /\ cmp_link o op2 b c = Ok true.
+Proof. exact chain_two_proof. Qed.
+
 (* ---------------------------------------------------------------------------------------- *)
 (* feature `preserve_order`: IndexMap-backed maps                                           *)
 (* ---------------------------------------------------------------------------------------- *)
@@ -372,6 +383,8 @@ Print Assumptions map_build_wf.
 Print Assumptions in_iff_exists_eq.
 Print Assumptions in_map_iff_exists_eq_key.
 Print Assumptions in_string_iff_substring.
+Print Assumptions not_in_negates_in.
+Print Assumptions chain_is_conjunction.
 Print Assumptions cmp_eq_iff_veq_indexmap_partial.
 Print Assumptions veq_hash_indexmap_partial.
 Print Assumptions cmp_eq_iff_veq.
